@@ -168,13 +168,14 @@ def boxResult : Result := (run boxProg 100).getD ⟨[], [], [], [], [], []⟩
 def boxRetNone : Nat → Bool := fun q => boxResult.retNone.contains q
 
 /-- The value of `int_3` depends on line 4 (`self.a0 = v0`, which also carries `m0`'s implicit
-`return None`) and on line 6; the model of the code reports both, the other order loses line 4 to
-the later `none_4 = obj_1.m0(int_0)`. -/
+`return None`), on line 6 and on the `def` lines 3 and 5 of the two methods found through `obj_1`; the
+model of the code reports all of them, the other order loses line 4 to the later
+`none_4 = obj_1.m0(int_0)`. -/
 theorem box_witness :
-    (sliceLines boxResult.trace (boxResult.crits.getD 3 0)).eraseDups = [4, 6] ∧
-    (stmtLines boxResult.trace boxRetNone (boxResult.crits.getD 4 0)) = [] ∧
-    (stmtCheckedLines boxResult.trace boxRetNone boxResult.crits).eraseDups = [4, 6] ∧
-    (accThenCleanseLoop boxResult.trace boxRetNone boxResult.crits []).eraseDups = [6] := by
+    (sliceLines boxResult.trace (boxResult.crits.getD 3 0)).eraseDups = [3, 5, 4, 6] ∧
+    (stmtLines boxResult.trace boxRetNone (boxResult.crits.getD 4 0)) = [3] ∧
+    (stmtCheckedLines boxResult.trace boxRetNone boxResult.crits).eraseDups = [3, 5, 4, 6] ∧
+    (accThenCleanseLoop boxResult.trace boxRetNone boxResult.crits []).eraseDups = [3, 5, 6] := by
   decide +kernel
 
 theorem acc_then_cleanse_cex : ¬ AccThenCleanseComplete := by
@@ -311,6 +312,42 @@ evaluation of every enclosing loop test, on every enclosing `if` and on the call
 theorem C09_loop_partial (p : Prog) (fuel : Nat) (w : Result) (_ : run p fuel false = some w)
     (c i : Nat) : i ∈ sliceBack w.trace c ↔ Reach w.trace c i :=
   mem_sliceBack_iff_reach w.trace c i
+
+/-! ## Class-level definitions read through an instance: the address-qualified attribute key
+
+A read of `obj.name` that is not satisfied by an attribute store on `obj` stays pending as the string
+`'<hex(id(obj))>_<name>'` until the slicer reaches the creation of `obj`; there the pending uses on
+that object are converted into names of class-level variables (`a = 2`, `def m`) whose definitions are
+then looked for by NAME.  The dependence on the class-level definition is found only if the name is
+recovered exactly — for every name, private ones (`_step`, `__x__`, `a_`, `_`) included. -/
+
+/-- `"_".join(use.split("_")[1:])` applied to `f"{hex(addr)}_{name}"` is `name`, for all addresses and
+all names. -/
+theorem attribute_name_recovered_exactly (addr : Nat) (name : List Char) :
+    attrNameOfKey (attrUseKey addr name) = name :=
+  attrNameOfKey_attrUseKey addr name
+
+/-- At the creation of the object at `addr`, every pending attribute use on it becomes exactly its own
+name in `attribute_creation_uses` and leaves `attr_uses`. -/
+theorem attribute_uses_converted_at_creation (addr : Nat) (h0 : addr ≠ 0) (uses : List (List Char))
+    (name : List Char) (h : attrUseKey addr name ∈ uses) :
+    name ∈ (convertAttrUses addr uses).1 ∧ attrUseKey addr name ∉ (convertAttrUses addr uses).2 :=
+  convertAttrUses_complete addr h0 uses name h
+
+/-- Pending uses that do not belong to the created object are kept. -/
+theorem other_attribute_uses_stay_pending (addr : Nat) (uses : List (List Char)) (u : List Char)
+    (h : u ∈ uses) (hn : attrUseOf addr u = false) : u ∈ (convertAttrUses addr uses).2 :=
+  convertAttrUses_keeps addr uses u h hn
+
+/-- Counter-model: cutting the prefix off and stripping the separator with `lstrip('_')` loses the
+leading underscore of a private name (`_step` → `step`). -/
+theorem attr_name_lstrip_cex :
+    attrNameLstrip 4096 (attrUseKey 4096 "_step".toList) ≠ "_step".toList := by decide
+
+/-- Non-vacuity: a private and a public pending use on the object at `0x7f00`, one on another object. -/
+example : convertAttrUses 0x7f00 [attrUseKey 0x7f00 "_step".toList, attrUseKey 0x8f00 "a_".toList,
+      attrUseKey 0x7f00 "__m__".toList] =
+    (["_step".toList, "__m__".toList], [attrUseKey 0x8f00 "a_".toList]) := by decide
 
 /-! ## Non-vacuity -/
 
